@@ -23,9 +23,9 @@ import (
 // Structure-aware validation fuzzing on accepted blocks.
 
 var (
-	curMax  = types.NewCurrency(math.MaxUint64, math.MaxUint64)
-	cur2p64 = types.NewCurrency(0, 1)
-	cur64m1 = types.NewCurrency(math.MaxUint64, 0)
+	curMax   = types.NewCurrency(math.MaxUint64, math.MaxUint64)
+	cur2p64  = types.NewCurrency(0, 1)
+	cur64m1  = types.NewCurrency(math.MaxUint64, 0)
 	cur2p127 = types.NewCurrency(0, 1<<63)
 )
 
@@ -35,7 +35,7 @@ type valLevel struct {
 	maxTxns  int
 }
 
-func valLevelOf(b *harness.B, light bool) valLevel {
+func valLevelOf(b *recB, light bool) valLevel {
 	switch {
 	case light:
 		return valLevel{blocks: 60, perBlock: 40, maxTxns: 4}
@@ -47,7 +47,7 @@ func valLevelOf(b *harness.B, light bool) valLevel {
 }
 
 type valmon struct {
-	b    *harness.B
+	b    *recB
 	m    *mon
 	c    *chaingen.Chain
 	net  *chaingen.Net
@@ -75,7 +75,7 @@ func era(n *consensus.Network, h uint64) string {
 	return e
 }
 
-func runVal(b *harness.B, m *mon, seg segSpec) {
+func runVal(b *recB, m *mon, seg segSpec) {
 	lv := valLevelOf(b, seg.Light)
 	rng := b.SubRng("val/" + seg.Name)
 	v := &valmon{b: b, m: m, seg: seg, lv: lv, vrng: b.SubRng("valvar/" + seg.Name)}
@@ -125,11 +125,18 @@ func runVal(b *harness.B, m *mon, seg segSpec) {
 // guard is the crash monitor for the validation workload: panic => violation
 // keyed by the innermost core frame and the operator.
 func (v *valmon) guard(op string, wit func() any, f func()) (panicked bool) {
+	return v.guardKey(op, true, wit, f)
+}
+
+// guardKey: directed operators (constructions aimed at one sum / one rule) name
+// the finding; the generic field operators are grouped by panic kind so that one
+// defect reached through many fields is one finding.
+func (v *valmon) guardKey(op string, directed bool, wit func() any, f func()) (panicked bool) {
 	defer func() {
 		if r := recover(); r != nil {
 			panicked = true
 			st := string(debug.Stack())
-			fr := harness.FirstCoreFrame(st)
+			fr := coreFrame(st)
 			msg := fmt.Sprint(r)
 			w := map[string]any{"operator": op, "panic": capStr(msg, 400), "stack": harness.TrimStack(st), "segment": v.seg.Name, "network_family": v.seg.Family}
 			if wit != nil {
@@ -138,7 +145,11 @@ func (v *valmon) guard(op string, wit func() any, f func()) (panicked bool) {
 					w["case"] = wit()
 				}()
 			}
-			v.b.Violate(fmt.Sprintf("C10/panic/%s/%s", fr, op), fmt.Sprintf("panic in %s under operator %s: %s", fr, op, capStr(msg, 200)), w)
+			suffix := op
+			if !directed {
+				suffix = panicKind(msg)
+			}
+			v.b.Violate(fmt.Sprintf("C10/panic/%s/%s", fr, suffix), fmt.Sprintf("panic in %s under operator %s: %s", fr, op, capStr(msg, 200)), w)
 		}
 	}()
 	f()
@@ -163,13 +174,13 @@ func encHex(fn func(e *types.Encoder)) (s string) {
 
 func (v *valmon) blockWitness(cs consensus.State, blk types.Block, bs consensus.V1BlockSupplement) map[string]any {
 	w := map[string]any{
-		"height":      cs.Index.Height + 1,
-		"era":         era(v.net.N, cs.Index.Height+1),
-		"state_hex":   encHex(cs.EncodeTo),
+		"height":         cs.Index.Height + 1,
+		"era":            era(v.net.N, cs.Index.Height+1),
+		"state_hex":      encHex(cs.EncodeTo),
 		"supplement_hex": encHex(bs.EncodeTo),
-		"parent_id":   blk.ParentID.String(),
-		"nonce":       blk.Nonce,
-		"timestamp":   blk.Timestamp.Unix(),
+		"parent_id":      blk.ParentID.String(),
+		"nonce":          blk.Nonce,
+		"timestamp":      blk.Timestamp.Unix(),
 	}
 	if js, err := json.Marshal(v.net.N); err == nil {
 		w["network_json"] = json.RawMessage(js)
@@ -506,7 +517,12 @@ func (v *valmon) genericMuts(cs consensus.State, tmpl *types.Block, r txnRef) []
 				p := l.v.Addr().Interface().(*types.SatisfiedPolicy)
 				q := types.PolicyAbove(0)
 				for i := 0; i < 5; i++ {
-					q = widePolicy(1, 255, q)
+					of := make([]types.SpendPolicy, 255)
+					for j := range of {
+						of[j] = types.PolicyAbove(uint64(j))
+					}
+					of[0] = q
+					q = types.PolicyThreshold(1, of)
 				}
 				p.Policy = q
 			}, true)
@@ -738,12 +754,16 @@ func (v *valmon) genericMuts(cs consensus.State, tmpl *types.Block, r txnRef) []
 				s string
 				f func(parent types.V2FileContractElement) types.V2FileContractResolutionType
 			}{
-				{"expiration", func(types.V2FileContractElement) types.V2FileContractResolutionType { return &types.V2FileContractExpiration{} }},
+				{"expiration", func(types.V2FileContractElement) types.V2FileContractResolutionType {
+					return &types.V2FileContractExpiration{}
+				}},
 				{"storage-proof-zero", func(types.V2FileContractElement) types.V2FileContractResolutionType { return &types.V2StorageProof{} }},
 				{"storage-proof-64-hashes", func(types.V2FileContractElement) types.V2FileContractResolutionType {
 					return &types.V2StorageProof{Proof: resizeProof(nil, 64), ProofIndex: types.ChainIndexElement{StateElement: types.StateElement{LeafIndex: 0, MerkleProof: resizeProof(nil, 64)}}}
 				}},
-				{"renewal-zero", func(types.V2FileContractElement) types.V2FileContractResolutionType { return &types.V2FileContractRenewal{} }},
+				{"renewal-zero", func(types.V2FileContractElement) types.V2FileContractResolutionType {
+					return &types.V2FileContractRenewal{}
+				}},
 				{"renewal-of-parent", func(p types.V2FileContractElement) types.V2FileContractResolutionType {
 					return &types.V2FileContractRenewal{NewContract: p.V2FileContract, FinalRenterOutput: p.V2FileContract.RenterOutput, FinalHostOutput: p.V2FileContract.HostOutput}
 				}},
@@ -807,7 +827,7 @@ func (v *valmon) directedMuts(cs consensus.State, orig *types.Block) []mut {
 		if len(t.SiacoinInputs) > 0 {
 			// a renewal whose rollover is as large as the overflow pre-check allows
 			for _, rv := range []struct {
-				s    string
+				s     string
 				r, hh types.Currency
 			}{{"renter=2^128-1", curMax, types.ZeroCurrency}, {"host=2^128-1", types.ZeroCurrency, curMax}, {"renter=2^127/host=2^127-1", cur2p127, cur2p127.Sub(types.NewCurrency64(1))}} {
 				rv := rv
@@ -941,7 +961,6 @@ func (v *valmon) directedMuts(cs consensus.State, orig *types.Block) []mut {
 				{"depth-1", nestPolicy(anyone, 1)}, {"depth-31", nestPolicy(anyone, 31)}, {"depth-32", nestPolicy(anyone, 32)}, {"depth-33", nestPolicy(anyone, 33)}, {"depth-40", nestPolicy(anyone, 40)},
 				{"depth-1000", nestPolicy(anyone, 1000)},
 				{"1-of-255", widePolicy(1, 255, anyone)}, {"255-of-255", widePolicy(255, 255, anyone)}, {"0-of-255", widePolicy(0, 255, anyone)}, {"1-of-256", widePolicy(1, 256, anyone)},
-				{"4-levels-of-255", widePolicy(1, 255, widePolicy(1, 255, widePolicy(1, 255, widePolicy(1, 255, anyone))))},
 				{"depth-30-of-255", func() types.SpendPolicy {
 					p := anyone
 					for i := 0; i < 30; i++ {
@@ -1194,6 +1213,11 @@ func (v *valmon) evaluate(cs consensus.State, orig types.Block, mt mut, h uint64
 	if m.ord <= m.skip {
 		return
 	}
+	if m.abandon["validate|"+mt.op] {
+		b.Count("cases_not_run_after_repeated_process_fatal_inputs", 1)
+		return
+	}
+	b.tick()
 	blk := chaingen.CloneBlock(orig)
 	applied := false
 	if !safely(func() { applied = mt.f(&blk) }) || !applied {
@@ -1259,7 +1283,7 @@ func (v *valmon) evaluate(cs consensus.State, orig types.Block, mt mut, h uint64
 	var out valOutcome
 	run := func() {
 		out = valOutcome{}
-		out.panicked = v.guard(mt.op, wit, func() { out = v.validateAll(cs, &blk, mt) })
+		out.panicked = v.guardKey(mt.op, mt.directed && !mt.raw, wit, func() { out = v.validateAll(cs, &blk, mt) })
 	}
 	var m0, m1 runtime.MemStats
 	runtime.ReadMemStats(&m0)
